@@ -1,0 +1,13 @@
+//go:build verif
+
+package rtmp
+
+import "net"
+
+// Verification hooks (build tag verif): add-only exports used by the /verif conformance harness.
+
+// VerifHandleTcpConnect runs the server's per-connection routine (session, read loop, then the report
+// of the departing pub / sub session to the observer) on a connection supplied by a test.
+func (server *Server) VerifHandleTcpConnect(conn net.Conn) {
+	server.handleTcpConnect(conn)
+}
